@@ -1,6 +1,6 @@
-(* C08 driver.  Requests:
-     c core|ext <ty> <oid>                 -> mkerr=<E> | P=<text> R=<parse(P)> X=<to_extended> XP=<its text> Q=<to_qualified> QP=<its text>
-     q <lim> <ty> <oid> <origin> <visit> <anchor> <path> <lines>
+(* C08 driver.  Requests (<ns> = namespace text or "-" = left at the default, <ver> = decimal or "-"):
+     c core|ext <ns> <ver> <ty> <oid>      -> mkerr=<E> | P=<text> R=<parse(P)> X=<to_extended> XP=<its text> Q=<to_qualified> QP=<its text>
+     q <lim> <ns> <ver> <ty> <oid> <origin> <visit> <anchor> <path> <lines>
                                             -> mkerr=<E> | P=<text|err> R=<parse_q(P)|->
      lang core|ext|q <text>                 -> t|f     (the extracted recogniser of the documented language) *)
 (* --- (de)serialisation shared by drv_C08.ml and drv_C09.ml (kept textually identical).
@@ -38,12 +38,13 @@ let show_res show r = match r with Ok v -> "ok=" ^ show v | Err e -> "err=" ^ er
 let show_q v = String.concat "/" [word_of_text v.q_ty; hex_of_bytes v.q_oid; tok_of_opt_text v.q_origin;
   tok_of_opt_core v.q_visit; tok_of_opt_core v.q_anchor; hex_of_opt_bytes v.q_path; tok_of_lines v.q_lines]
 let tf b = if b then "t" else "f"
+let opt_z_of_tok s = if s = "-" then None else Some (z_of_decimal s)
+let word s = if s = "." then [] else ascii_text s
 let () = serve (function
-  | ["c"; cls; ty; oid] ->
-      let ty = if ty = "." then [] else ascii_text ty in
-      let mk = if cls = "ext" then mk_ext else mk_core in
+  | ["c"; cls; ns; ver; ty; oid] ->
+      let mk = if cls = "ext" then mk_ext_nv else mk_core_nv in
       let parse = if cls = "ext" then parse_ext else parse_core in
-      (match mk ty (bytes_of_hex oid) with
+      (match mk (opt_text_of_tok ns) (opt_z_of_tok ver) (word ty) (bytes_of_hex oid) with
        | Err e -> "mkerr=" ^ err_name e
        | Ok c ->
            let p = print_core c in
@@ -55,11 +56,10 @@ let () = serve (function
                 ^ " QP=" ^ (match to_qualified c with
                             | Ok q -> show_res tok_of_text (print_q (n_of_int 0) q)
                             | Err _ -> "-"))
-  | ["q"; lim; ty; oid; origin; visit; anchor; path; lines] ->
+  | ["q"; lim; ns; ver; ty; oid; origin; visit; anchor; path; lines] ->
       let lim = n_of_int (int_of_string lim) in
-      let ty = if ty = "." then [] else ascii_text ty in
-      (match mk_q ty (bytes_of_hex oid) (opt_text_of_tok origin) (opt_core_of_tok visit)
-               (opt_core_of_tok anchor) (opt_bytes_of_hex path) (lines_of_tok lines) with
+      (match mk_q_nv (opt_text_of_tok ns) (opt_z_of_tok ver) (word ty) (bytes_of_hex oid) (opt_text_of_tok origin)
+               (opt_core_of_tok visit) (opt_core_of_tok anchor) (opt_bytes_of_hex path) (lines_of_tok lines) with
        | Err e -> "mkerr=" ^ err_name e
        | Ok v ->
            (match print_q lim v with
